@@ -54,31 +54,56 @@ def lop_enum(prog, name):
     return EnumV(prog.src.variant_index('LogicalOp', name), {}, 'LogicalOp')
 
 
-def leaf_cmp(prog, op, tag):
-    """Expr { left: Some(Box(tagged leaf)), op: Some(op), right: Some(Box(tagged leaf)) }; the tag (an integer in
-    `val`) tells the get_column_expr_value summary which operand is asked for"""
-    l = mk_expr(prog, val=some(Str('L%d' % tag)))
-    r = mk_expr(prog, val=some(Str('R%d' % tag)))
-    return mk_expr(prog, left=some(BoxV(l)), op=some(op, 'Option'), right=some(BoxV(r)))
+def field_enum(prog, name):
+    i = prog.src.variant_index('Field', name)
+    if i is None:
+        raise KeyError('Field::' + name)
+    return EnumV(i, {}, 'Field')
+
+
+def expr_field(prog, name):
+    return mk_expr(prog, field=some(field_enum(prog, name)))
+
+
+def expr_value(prog, s, minus=False):
+    return mk_expr(prog, val=some(s if isinstance(s, Str) else Str(s)), minus=BoolVal(minus))
+
+
+def expr_cmp(prog, left, op, right):
+    return mk_expr(prog, left=some(BoxV(left)), op=some(op, 'Option'), right=some(BoxV(right)))
+
+
+def leaf_cmp(prog, op, lf='Size', rf='Uid'):
+    """`<column lf> op <column rf>`: both operands are columns whose values the driver registers in
+    ctx.ghost['fields'] (any VariantType may be registered for any column: the tables do not depend on which
+    column produced the value)"""
+    return expr_cmp(prog, expr_field(prog, lf), op, expr_field(prog, rf))
 
 
 def node_logical(prog, lop, a, b):
     return mk_expr(prog, left=some(BoxV(a)), logical_op=some(lop, 'Option'), right=some(BoxV(b)))
 
 
-def gcev_summary(ctx, args, callee):
-    """summary of Searcher::get_column_expr_value: returns the Variant the driver registered for the leaf
-    (ctx.ghost['operands'][tag]); contract: a pure function of (entry, expression)"""
-    from mirsym.core import clone_struct
-    e = ctx.deref(args[-1])
-    fields = struct_fields(ctx.prog, 'Expr')
-    val = e.f[fields.index('val')]
-    tag = val.p[1][0].s
-    v = ctx.ghost['operands'][tag]
+def gfv_summary(ctx, args, callee):
+    """summary of Searcher::get_field_value(entry, file_info, field): the Variant registered by the driver for that
+    column (ctx.ghost['fields'][name]); contract: a pure function of (entry, column). The real arms are C04."""
+    from mirsym.core import clone_struct, conc
+    from mirsym.core import Unmodelled
+    fe = ctx.deref(args[-1])
+    d = fe.d if isinstance(fe.d, int) else conc(fe.d)
+    if d is None:
+        raise Unmodelled('get_field_value summary on a symbolic Field')
+    name = ctx.prog.src.variant_name('Field', d)
+    tbl = ctx.ghost.get('fields', {})
+    if name not in tbl:
+        raise Unmodelled('get_field_value summary: no value registered for column ' + str(name))
+    v = tbl[name]
+    if callable(v):
+        v = v(ctx)
     return clone_struct(v)
 
 
-GCEV_OVERRIDE = (r'Searcher::get_column_expr_value$', gcev_summary, 'summary:get_column_expr_value')
+GFV_OVERRIDE = (r'Searcher::get_field_value$', gfv_summary, 'summary:get_field_value')
 
 
 def convert_summary(ctx, args, callee):
@@ -98,6 +123,9 @@ def mk_searcher(prog, **kw):
     vals['regex_cache'] = Map('HashMap')
     vals.update(kw)
     return Agg([vals[f] for f in fields], 'Searcher')
+
+
+EVAL_OVERRIDES = [GFV_OVERRIDE, CONVERT_OVERRIDE]
 
 
 def run_conforms(ctx, prog, expr, searcher=None):
